@@ -17,7 +17,7 @@ pub fn def02() -> PropDef {
     PropDef {
         info: PropInfo {
             id: "C02",
-            rule: "layouts: packet of 0-64 bytes and metadata buffer absent or 8-64 bytes, each placed start- or end-against a PROT_NONE page; 0-3 registered ranges of 1-32 bytes inside a canary-filled arena, some separated by holes of only 1-7 bytes; in a third of the layouts one more registered range covers all the others (extended by 0-3 bytes on either side) and is registered last, first, second, or with the whole order reversed. probes: one access instruction {ldx, st, stx, xadd, ldabs, ldind} x width {1,2,4,8} whose effective address is a region boundary (start or end of packet / metadata / each range / the stack) plus a delta in [-9,+9], or 0, 1, u64::MAX-k, a base+offset sum that wraps past 2^64, or a far address; base value and displacement are split randomly between register and 16-bit offset (imm+src for ldind); a quarter of the probes first perform a narrower access through the same register and offset; in a quarter of the layouts the metadata buffer starts 1-7 bytes after the end of the packet. Oracle (computed from the real addresses inside the child): allowed <=> all bytes inside exactly one region (and naturally aligned for xadd); allowed => Ok with the exact loaded value / exactly the stored bytes changed; refused => Err (never a panic or signal) and no byte of packet, metadata, arena or canaries changed. The thorough tier additionally enumerates every (region boundary, delta, kind, width) combination for fixed layouts. Non-trivial = effective address within 9 bytes of a region boundary, or wrapped; distinct by hash of layout+probe.",
+            rule: "layouts: packet of 0-64 bytes and metadata buffer absent or 8-64 bytes, each placed start- or end-against a PROT_NONE page; 0-3 registered ranges of 1-32 bytes inside a canary-filled arena, some separated by holes of only 1-7 bytes; in a third of the layouts one more registered range covers all the others (extended by 0-3 bytes on either side) and is registered last, first, second, or with the whole order reversed. probes: one access instruction {ldx, st, stx, xadd, ldabs, ldind} x width {1,2,4,8} whose effective address is a region boundary (start or end of packet / metadata / each range / the stack) plus a delta in [-9,+9], or 0, 1, u64::MAX-k, a base+offset sum that wraps past 2^64, or a far address; base value and displacement are split randomly between register and 16-bit offset (imm+src for ldind); a quarter of the probes first perform a narrower access through the same register and offset; a quarter first perform an in-bounds access of the same offset and width and then redefine the base register (lddw, mov, add, stack reload, result of a helper call, ldabs); in a quarter of the layouts the metadata buffer starts 1-7 bytes after the end of the packet. Oracle (computed from the real addresses inside the child): allowed <=> all bytes inside exactly one region (and naturally aligned for xadd); allowed => Ok with the exact loaded value / exactly the stored bytes changed; refused => Err (never a panic or signal) and no byte of packet, metadata, arena or canaries changed. The thorough tier additionally enumerates every (region boundary, delta, kind, width) combination for fixed layouts. Non-trivial = effective address within 9 bytes of a region boundary, or wrapped; distinct by hash of layout+probe.",
             assumptions: &["the interpreter's stack is reached through r10-relative probes (its absolute address is unknown); loads from it only have to succeed", "registered ranges never touch or partially overlap each other or the other regions (holes of 1-7 bytes between two ranges, and one range that wholly contains the others, are generated on purpose): an access inside the union of two partially overlapping ranges but inside neither is left undecided by the statement"],
         },
         run: run02,
@@ -30,7 +30,7 @@ pub fn def11() -> PropDef {
     PropDef {
         info: PropInfo {
             id: "C11",
-            rule: "the C02 probe generator restricted to the regions Cranelift knows {packet, metadata buffer, 512-byte stack} on the metadata VM (metadata buffer present or empty, packet empty or not), same boundary windows (incl. packet and metadata buffer only 1-7 bytes apart, a narrower priming access through the same register and offset, and up to four in-bounds loads through the same register at other offsets - into whichever regions the 16-bit offset reaches - in the same basic block), null, top-of-address-space and wrap-around addresses. Each probe is compiled with Cranelift and executed in its own forked child. Oracle: in bounds => the child returns the exact loaded value / the stored bytes are exactly the expected ones; out of bounds => the child is terminated by SIGILL (the trap) and no byte of packet, metadata or the surrounding canary bytes changed; a normal return, SIGSEGV/SIGBUS, or a changed byte is a violation. Non-trivial = effective address within 9 bytes of a region boundary, or wrapped; distinct by hash of layout+probe.",
+            rule: "the C02 probe generator restricted to the regions Cranelift knows {packet, metadata buffer, 512-byte stack} on the metadata VM (metadata buffer present or empty, packet empty or not), same boundary windows (incl. packet and metadata buffer only 1-7 bytes apart, a narrower priming access through the same register and offset, up to four in-bounds loads through the same register at other offsets - into whichever regions the 16-bit offset reaches - and, in a quarter of the probes, an in-bounds access of the same offset and width after which the base register is redefined by lddw / mov / add / a stack reload / the result of a helper call / ldabs, all in the same basic block), null, top-of-address-space and wrap-around addresses. Each probe is compiled with Cranelift and executed in its own forked child. Oracle: in bounds => the child returns the exact loaded value / the stored bytes are exactly the expected ones; out of bounds => the child is terminated by SIGILL (the trap) and no byte of packet, metadata or the surrounding canary bytes changed; a normal return, SIGSEGV/SIGBUS, or a changed byte is a violation. Non-trivial = effective address within 9 bytes of a region boundary, or wrapped; distinct by hash of layout+probe.",
             assumptions: &["a Cranelift trap surfaces as SIGILL (ud2) in the child", "guard pages make an out-of-region read fault; a returned value proves that a read was performed"],
         },
         run: run11,
@@ -94,6 +94,12 @@ pub struct Probe {
     /// 16-bit offset can reach) executed before the probe, in the same basic block:
     /// (region selector, position inside the region)
     warm: Vec<(u8, u8)>,
+    /// 0 = none. Otherwise the base register first serves an in-bounds access with the same
+    /// offset and width (region chosen by the high nibble) and is then redefined, in the same
+    /// basic block, to the probe's base by: 1 lddw, 2 mov from another register, 3 add of the
+    /// difference, 4 reload from a stack slot, 5 the result of a helper call (r0), 6 ldabsb (r0 =
+    /// first packet byte: the probe then aims at that small address + offset)
+    rebase: u8,
 }
 
 fn layout(with_ranges: bool) -> impl Strategy<Value = Layout> {
@@ -114,8 +120,8 @@ fn probe(nregions: u8, cranelift: bool) -> impl Strategy<Value = Probe> {
         1 => prop_oneof![Just(0u64), Just(1u64), (0u64..16).prop_map(|k| u64::MAX - k), any::<u64>().prop_map(|x| x | (1 << 62)), Just(4096u64), Just(8u64)].prop_map(Target::Abs),
         1 => (0u8..16, 0u8..32).prop_map(|(back, off)| Target::Wrap { back, off }),
     ];
-    (prop::sample::select(kinds), prop::sample::select(vec![1u8, 2, 4, 8]), target, prop_oneof![1 => Just(0i16), 2 => any::<i16>(), 1 => -64i16..64], crate::gen::interesting_u64(), prop_oneof![3 => Just(0u8), 1 => 1u8..8], prop_oneof![1 => Just(vec![]).boxed(), 1 => prop::collection::vec((any::<u8>(), any::<u8>()), 1..5).boxed()])
-        .prop_map(|(kind, width, target, split, val, prime, warm)| Probe { kind, width, target, split, val, prime, warm })
+    (prop::sample::select(kinds), prop::sample::select(vec![1u8, 2, 4, 8]), target, prop_oneof![1 => Just(0i16), 2 => any::<i16>(), 1 => -64i16..64], crate::gen::interesting_u64(), prop_oneof![3 => Just(0u8), 1 => 1u8..8], prop_oneof![1 => Just(vec![]).boxed(), 1 => prop::collection::vec((any::<u8>(), any::<u8>()), 1..5).boxed()], prop_oneof![3 => Just(0u8), 1 => (1u8..7, 0u8..16).prop_map(|(m, r)| m | r << 4)])
+        .prop_map(|(kind, width, target, split, val, prime, warm, rebase)| Probe { kind, width, target, split, val, prime, warm, rebase })
 }
 
 pub fn case_strategy(with_ranges: bool, cranelift: bool) -> impl Strategy<Value = (Layout, Probe)> {
@@ -153,6 +159,8 @@ const ST_SKIP: u32 = 3;
 struct Regions {
     /// (start, len) of packet, metadata, ranges...
     regs: Vec<(u64, u64)>,
+    /// first byte of the packet once the arenas are filled
+    pkt0: u8,
 }
 
 impl Mem {
@@ -193,7 +201,8 @@ impl Mem {
             let hi = regs[2..].iter().map(|r| r.0 + r.1).max().unwrap() + ((l.cover >> 3) & 3) as u64;
             regs.push((lo, hi - lo));
         }
-        Regions { regs }
+        let pkt0 = ((regs[0].0.wrapping_sub(self.pkt.data_start() as u64)) as u8).wrapping_mul(31).wrapping_add(l.fill).wrapping_add(97) | 1;
+        Regions { regs, pkt0 }
     }
 
     unsafe fn fill(&self, l: &Layout) {
@@ -300,6 +309,49 @@ fn build(p: &Probe, r: &Regions, ld_base: u64) -> Option<Built> {
                         out.push(Insn::new(EXIT, 0, 0, 0, 0));
                         return Some(Built { prog: encode_prog(&out), ea: Some(ea), stack_delta: None, near, prime: None });
                     }
+                    _ if p.rebase & 15 != 0 => {
+                        let method = p.rebase & 15;
+                        let base: u8 = if method >= 5 { 0 } else { 1 };
+                        let cands: Vec<(u64, u64)> = r.regs.iter().copied().filter(|(_, l)| *l >= w as u64).collect();
+                        if cands.is_empty() || (method == 6 && r.regs[0].1 == 0) {
+                            return None;
+                        }
+                        let first = cands[(p.rebase >> 4) as usize % cands.len()].0;
+                        let disp = off as i64 as u64;
+                        lddw(&mut out, base, first.wrapping_sub(disp));
+                        out.push(Insn::new(ldx_opc(w), 3, base, off, 0));
+                        let target = ea.wrapping_sub(disp);
+                        let mut ea = ea;
+                        match method {
+                            1 => lddw(&mut out, base, target),
+                            2 => {
+                                lddw(&mut out, 4, target);
+                                out.push(Insn::new(alu_opc(true, ALU_MOV, true), base, 4, 0, 0));
+                            }
+                            3 => {
+                                lddw(&mut out, 4, target.wrapping_sub(first.wrapping_sub(disp)));
+                                out.push(Insn::new(alu_opc(true, ALU_ADD, true), base, 4, 0, 0));
+                            }
+                            4 => {
+                                lddw(&mut out, 4, target);
+                                out.push(Insn::new(stx_opc(8), 10, 4, -8, 0));
+                                out.push(Insn::new(ldx_opc(8), base, 10, -8, 0));
+                            }
+                            5 => {
+                                lddw(&mut out, 1, target);
+                                out.push(Insn::new(CALL, 0, 0, 0, IDENT_ID as i32));
+                                lddw(&mut out, 2, p.val);
+                            }
+                            _ => {
+                                out.push(Insn::new(ldabs_opc(1), 0, 0, 0, 0));
+                                ea = (r.pkt0 as u64).wrapping_add(disp);
+                                near = false;
+                            }
+                        }
+                        emit_access_via(&mut out, p, w, off, base);
+                        out.push(Insn::new(EXIT, 0, 0, 0, 0));
+                        return Some(Built { prog: encode_prog(&out), ea: Some(ea), stack_delta: None, near, prime: None });
+                    }
                     _ => lddw(&mut out, 1, ea.wrapping_sub(off as i64 as u64)),
                 },
                 (None, Some(d)) => {
@@ -348,13 +400,24 @@ fn build(p: &Probe, r: &Regions, ld_base: u64) -> Option<Built> {
 const PRIME_IMM: i32 = 0x5a6b7c;
 
 fn emit_access(out: &mut Vec<Insn>, p: &Probe, w: usize, off: i16) {
+    emit_access_via(out, p, w, off, 1)
+}
+
+fn emit_access_via(out: &mut Vec<Insn>, p: &Probe, w: usize, off: i16, base: u8) {
     match p.kind {
-        Kind2::Ldx => out.push(Insn::new(ldx_opc(w), 0, 1, off, 0)),
-        Kind2::St => out.push(Insn::new(st_opc(w), 1, 0, off, p.val as i32)),
-        Kind2::Stx => out.push(Insn::new(stx_opc(w), 1, 2, off, 0)),
-        Kind2::Xadd => out.push(Insn::new(xadd_opc(w), 1, 2, off, 0)),
+        Kind2::Ldx => out.push(Insn::new(ldx_opc(w), 0, base, off, 0)),
+        Kind2::St => out.push(Insn::new(st_opc(w), base, 0, off, p.val as i32)),
+        Kind2::Stx => out.push(Insn::new(stx_opc(w), base, 2, off, 0)),
+        Kind2::Xadd => out.push(Insn::new(xadd_opc(w), base, 2, off, 0)),
         _ => unreachable!(),
     }
+}
+
+const IDENT_ID: u32 = 1;
+
+/// helper: returns its first argument
+fn ident(a: u64, _b: u64, _c: u64, _d: u64, _e: u64) -> u64 {
+    a
 }
 
 fn set_fail(sh: &mut SharedProbe, m: &str) {
@@ -422,6 +485,7 @@ unsafe fn child_probe(mem: &Mem, l: &Layout, p: &Probe, eng: Eng) {
             return;
         }
     };
+    vm.register_helper(IDENT_ID, ident).expect("register_helper");
     let mut to_register: Vec<(u64, u64)> = regs.regs[2..].to_vec();
     if l.cover & 1 != 0 && to_register.len() > 1 {
         // the covering range is the last of the list; registration order is part of the input
@@ -657,7 +721,7 @@ fn case_json(l: &Layout, p: &Probe) -> Value {
     json!({
         "layout": {"pkt_len": l.pkt_len, "pkt_at_end": l.pkt_at_end, "mbuff_len": l.mbuff_len, "mbuff_at_end": l.mbuff_at_end, "ranges": l.ranges, "fill": l.fill, "mbuff_gap": l.mbuff_gap, "cover": l.cover},
         "probe": {
-            "kind": format!("{:?}", p.kind), "width": p.width, "split": p.split, "val": p.val.to_string(), "prime": p.prime, "warm": p.warm.iter().map(|(a, b)| json!([a, b])).collect::<Vec<_>>(),
+            "kind": format!("{:?}", p.kind), "width": p.width, "split": p.split, "val": p.val.to_string(), "prime": p.prime, "rebase": p.rebase, "warm": p.warm.iter().map(|(a, b)| json!([a, b])).collect::<Vec<_>>(),
             "target": match &p.target {
                 Target::Edge { region, end, delta } => json!({"edge": [region, end, delta]}),
                 Target::Stack { delta } => json!({"stack": delta}),
@@ -700,7 +764,7 @@ fn case_from_json(v: &Value) -> Option<(Layout, Probe)> {
         let w = t["wrap"].as_array()?;
         Target::Wrap { back: w[0].as_u64()? as u8, off: w[1].as_u64()? as u8 }
     };
-    Some((l, Probe { kind, width: pj["width"].as_u64()? as u8, target, split: pj["split"].as_i64()? as i16, val: pj["val"].as_str()?.parse().ok()?, prime: pj["prime"].as_u64().unwrap_or(0) as u8, warm: pj["warm"].as_array().map(|a| a.iter().map(|x| (x[0].as_u64().unwrap_or(0) as u8, x[1].as_u64().unwrap_or(0) as u8)).collect()).unwrap_or_default() }))
+    Some((l, Probe { kind, width: pj["width"].as_u64()? as u8, target, split: pj["split"].as_i64()? as i16, val: pj["val"].as_str()?.parse().ok()?, prime: pj["prime"].as_u64().unwrap_or(0) as u8, rebase: pj["rebase"].as_u64().unwrap_or(0) as u8, warm: pj["warm"].as_array().map(|a| a.iter().map(|x| (x[0].as_u64().unwrap_or(0) as u8, x[1].as_u64().unwrap_or(0) as u8)).collect()).unwrap_or_default() }))
 }
 
 fn account(st: &mut Stats, l: &Layout, p: &Probe, allowed: bool, near: bool, v: &Verdict) {
@@ -734,6 +798,9 @@ fn account(st: &mut Stats, l: &Layout, p: &Probe, allowed: bool, near: bool, v: 
     st.class(&format!("{:?}/{}", p.kind, p.width));
     if l.cover & 1 != 0 && l.ranges.len() >= 2 {
         st.class(&format!("covering-range-over->=2-ranges:registered-{}:{}", ["last", "first", "in-reverse", "second"][((l.cover >> 5) & 3) as usize], if allowed { "allowed" } else { "refused" }));
+    }
+    if p.rebase & 15 != 0 && !matches!(p.kind, Kind2::LdAbs | Kind2::LdInd) && !matches!(p.target, Target::Stack { .. } | Target::Wrap { .. }) {
+        st.class(&format!("base-register-redefined-by-{}:{}", ["", "lddw", "mov", "add", "stack-reload", "helper-call", "ldabs"][(p.rebase & 15) as usize % 7], if allowed { "allowed" } else { "refused" }));
     }
     if !p.warm.is_empty() && !matches!(p.kind, Kind2::LdAbs | Kind2::LdInd) {
         st.class(if allowed { "after-warm-up-loads:allowed" } else { "after-warm-up-loads:refused" });
@@ -784,7 +851,7 @@ fn drive(ctx: &Ctx, eng: Eng, quick: u64, thorough: u64) {
                                 if n % ctx.nworkers as u64 != ctx.worker as u64 {
                                     continue;
                                 }
-                                let p = Probe { kind, width, target: Target::Edge { region, end, delta }, split: (n % 7) as i16 * 3 - 9, val: 0x0102_0304_0506_0708u64.wrapping_mul(n | 1), prime: if n % 3 == 0 { (n % 8) as u8 } else { 0 }, warm: vec![] };
+                                let p = Probe { kind, width, target: Target::Edge { region, end, delta }, split: (n % 7) as i16 * 3 - 9, val: 0x0102_0304_0506_0708u64.wrapping_mul(n | 1), prime: if n % 3 == 0 { (n % 8) as u8 } else { 0 }, warm: vec![], rebase: 0 };
                                 let (v, allowed, near) = run_probe(&mem.borrow(), &l, &p, eng);
                                 count += 1;
                                 let fail = v.is_fail();
@@ -809,7 +876,7 @@ fn drive(ctx: &Ctx, eng: Eng, quick: u64, thorough: u64) {
                         if n % ctx.nworkers as u64 != ctx.worker as u64 || (delta > -500 && delta < -12 && n % 8 != 0) {
                             continue;
                         }
-                        let p = Probe { kind, width, target: Target::Stack { delta }, split: (n % 5) as i16 * 4 - 8, val: n, prime: 0, warm: vec![] };
+                        let p = Probe { kind, width, target: Target::Stack { delta }, split: (n % 5) as i16 * 4 - 8, val: n, prime: 0, warm: vec![], rebase: 0 };
                         let (v, allowed, near) = run_probe(&mem.borrow(), &l, &p, eng);
                         count += 1;
                         let fail = v.is_fail();
